@@ -32,6 +32,20 @@ directive @onFragDef on FRAGMENT_DEFINITION
 directive @onFragSpread on FRAGMENT_SPREAD
 directive @onInlineFrag on INLINE_FRAGMENT
 directive @onVarDef on VARIABLE_DEFINITION
+"""
+Boundary literals of every scalar kind as directive-argument defaults (and, at the use sites, as
+directive-argument values).
+"""
+directive @num(
+  f: Float = 1e19
+  g: Float = 1e-7
+  h: Float = 0.5
+  i: Int = -2147483648
+  s: String = "q\"uote\nnew\u0060tick\u0060\\"
+  k: Kind = POST
+  l: [Float!] = [0.5, -1e20, 1.7976931348623157e308]
+  o: DefIn2 = {f: 18446744073709551616.0, l: [1e19]}
+) on FIELD_DEFINITION | ARGUMENT_DEFINITION | INPUT_FIELD_DEFINITION
 directive @multi(a: [Int!] = [1, 2], b: Limits = {lo: 1, hi: 2}, c: Boolean) on FIELD_DEFINITION | ARGUMENT_DEFINITION | INPUT_FIELD_DEFINITION | OBJECT | FIELD
 
 schema @onSchema(note: "root") {
@@ -58,6 +72,22 @@ type Query {
   time(t: Time, blobs: [Blob]): Time
   calc: Calc
   mapObj(in: MapIn, ins: [MapIn!]): MapObj
+  "boundary literals as argument defaults; the harness echoes what the resolver receives"
+  bounds(
+    big: Float! = 1e19
+    tiny: Float = 1e-7
+    max: Float = 1.7976931348623157e308
+    imin: Int! = -2147483648
+    imax: Int = 2147483647
+    s: String = "he said \"hi\"\n\u0060tick\u0060"
+    k: Kind = POST
+    fl: [Float!] = [0.5, -1e20]
+    in: DefIn! = {}
+    ins: [DefIn2!] = [{}]
+    withDir: Float = 1e19 @num(g: 1e19)
+  ): String
+  numDefault: String @num
+  numUse: String @num(f: 18446744073709551616.0, g: 0.5, h: -1e20, i: 2147483647, s: "x\"y\u0060z\n", k: USER, l: [1e19], o: {f: -1e20, l: [0.5, 1e19], i: -2147483648, s: "\u0060", k: USER})
   mapObjs: [MapObj!]
   guarded(x: Int @onArgDef(min: 1, max: 3) @multi): String @onFieldDef @multi(a: [3])
   "field with every kind of default value"
@@ -240,6 +270,36 @@ input MapIn @goModel(model: "map[string]interface{}") {
   tags: [String!]
 }
 
+"boundary literals as input-field defaults"
+input DefIn2 {
+  f: Float! = 1e19
+  l: [Float!]! = [-1e20, 0.5]
+  i: Int! = 2147483647
+  s: String! = "a\"b"
+  k: Kind! = COMMENT
+}
+
+input DefIn {
+  big: Float! = 1e19
+  neg: Float! = -1e20
+  tiny: Float = 1e-7
+  half: Float = 0.5
+  max: Float! = 1.7976931348623157e308
+  two64: Float! = 18446744073709551616.0
+  whole: Float! = 3.0
+  imin: Int! = -2147483648
+  imax: Int = 2147483647
+  s: String! = "he said \"hi\"\n\t\u0060tick\u0060 \\ \u00e9"
+  block: String = """block "q" text"""
+  k: Kind! = POST
+  ks: [Kind!]! = [USER, COMMENT]
+  fl: [Float!]! = [0.5, 1e19, -1e20]
+  nested: [[Float]] = [[1e19, null], []]
+  sub: DefIn2! = {}
+  subs: [DefIn2!] = [{f: -1e20}, {l: [1e-7]}]
+  dir: Float = 0.25 @num(f: 2e19, l: [1e19])
+}
+
 input Order {
   by: String!
   desc: Boolean = false
@@ -333,7 +393,7 @@ type Calc {
   join(a: String!, b: String!, c: String!): String!
   window(lo: Int, hi: Int = 9): String!
 }
-`, "hand/models.go": methodOrderModels, "cmd/harness/main.go": handHarness},
+`, "hand/models.go": methodOrderModels, "cmd/harness/main.go": harnessSource(false, true)},
 		// the documented inline-config directives (docs/content/config.md, recipes/extra_fields.md)
 		"godirectives": {"schema/s.graphqls": goDirectives + `directive @goExtraField(name: String, type: String!, overrideTags: String, description: String) repeatable on OBJECT | INPUT_OBJECT
 scalar Big @goModel(model: "github.com/99designs/gqlgen/graphql.Int64")
